@@ -12,7 +12,7 @@ META = {
              'family (constant, collinear run ending at 0, small-integer plateaus, staircases)'),
     'require': {'wellformed': 3000, 'nontrivial': 500},
     'scale': {'quick': 1, 'thorough': 80},
-    'quick_cases': 3000, 'thorough_cases': 240000,
+    'quick_cases': 9000, 'thorough_cases': 240000,
     'assumptions': ['termination is decided as bounded progress per execution (step bounds linear in n and a '
                     'strictly decreasing variant on the RDP work stack), not for all inputs',
                     'sys.monitoring LINE events fire once per loop iteration (CPython 3.12)'],
